@@ -21,7 +21,7 @@ class C02(Property):
                          "editor_block_roundtrip", "difficulty_block_roundtrip", "general_block_roundtrip", "events_block_roundtrip",
                          "laws_satisfiable", "records_roundtrip", "circle_rt", "spinner_rt", "hold_rt", "samples_bank_info_rt", "samples_rt",
                          "path_string_roundtrip", "path_string_roundtrip_fresh", "slider_rt", "slider_rt_exact", "decodedNodes_get",
-                         "node_names_banks", "node_samples_rt", "slider_laws_satisfiable"]
+                         "node_names_banks", "node_samples_rt", "slider_laws_satisfiable", "hitobjects_block_rt"]
     partial_theorems = {
         "editor_block_roundtrip / difficulty_block_roundtrip / general_block_roundtrip / events_block_roundtrip / records_roundtrip":
             "law-dependent: proved for every number codec satisfying CodecLaws (parse(print x) = x on the representable values; printed numbers are non-empty and made of "
@@ -56,8 +56,11 @@ class C02(Property):
             "length must be representable and within ±131072 — a forced hypothesis and a real defect: replayed on the code, a slider without a length field whose computed curve is longer "
             "than 131072 (`0,0,1000,2,0,L|131072:131072|-131072:-131072|131072:131072,1`) is written with that length and the line is rejected on re-read (object lost): finding F20, "
             "kept as the explicit hypothesis RepSlider.distRep",
+        "hitobjects_block_rt": "law-dependent; conditional on every object of the map being representable (SliderRt.RepObject = RepCircle / RepSlider / RepSpinner / RepHold): the [HitObjects] "
+            "block read back from any decoder state appends one object per line, same kinds, same start times, same order, path buffer left empty; what else comes back per object is "
+            "circle_rt / slider_rt / spinner_rt / hold_rt",
         "roundtrip": "NOT yet theorems (only `def roundtrip_statement : Prop`, `def hitobjects_roundtrip_statement : Prop`): that every object of a DECODED map is representable in the sense of "
-            "RepCircle / RepSlider / RepSpinner / RepHold (outside F17/F18), the assembly over all objects of a map and the map-level processing after the lines, timing points and the "
+            "RepObject (outside F17/F18/F20), the map-level processing after the lines, timing points and the "
             "effective SV/kiai/scroll timelines (layer 5 of DESIGN 5.2), and therefore the property as a whole. These are evaluated on the implementation by the `rt` oracle "
             "(preserved view compared field by field, floats by bits, curves included, ≤4 ulp only for slider velocity) and on the model by the three-way `rt` correspondence "
             "(M1, text, M2 all identical between model and code)",
